@@ -48,6 +48,7 @@ structure View where
   chain : List Block                  -- the best chain the wallet has been told about
   txs : AMap.T TxId Tx                -- every transaction ever defined (resolves explicit inputs)
   pendingSpent : List OutPt           -- outpoints spent by pending transactions (C09's pending set)
+  stale : Bool := false               -- the node has moved on and the wallet has not been told yet
   reserved : List OutPt               -- inputs of outstanding drafts
   k : Nat
   maxFee : Nat
@@ -109,7 +110,11 @@ def suffice (v : View) (r : Req) : Bool :=
 def feeCeil (v : View) (r : Req) : Nat :=
   max (initFee r.userFee) (relayMin (signedSize (v.k + 1) (r.outs.length + 1) r.payloadLen))
 
-def resolve (v : View) (i : OutPt) : Option Out := (AMap.get v.txs i.1).bind (fun t => t.outs[i.2]?)
+/-- the output an explicit input names, if its transaction is on the chain the wallet knows -/
+def resolve (v : View) (i : OutPt) : Option Out :=
+  if v.chain.any (fun b => b.txs.any (fun t => t.id == i.1)) then
+    (AMap.get v.txs i.1).bind (fun t => t.outs[i.2]?)
+  else none
 
 def ownerOf (v : View) (o : Out) : Option Wid := if o.cls = .raw then none else (AMap.get v.own o.addr).map (·.1)
 
@@ -152,8 +157,18 @@ def judgeAutoOk (v : View) (r : Req) (fee payloadLen : Nat) (ins : List OutPt) (
   (if payloadLen = r.payloadLen then [] else ["payload"]) ++
   (if r.kind.isApi && decide (fee > v.maxFee) then ["fee-above-api-limit"] else [])
 
+/-- the API reports only these wallet error classes distinctly -/
+def apiCollapse (cls : String) : String :=
+  if cls = "err:bigfee" || cls = "err:insufficient" || cls = "err:overfull" || cls = "err:notenough" then cls
+  else "err:other"
+
 /-- acceptable error classes of an automatic path -/
 def judgeAutoErr (v : View) (r : Req) (cls : String) : List String :=
+  if v.stale && (cls = "err:param" || cls = "err:other") then [] else   -- a coin vanished in a reorganisation not yet delivered
+  if r.kind.isApi && cls = "err:other" then
+    -- any request error (unknown sender, zero amount, …) is reported as one class by the API
+    (if (match r.sender with | some a => (AMap.get v.own a).map (·.1) != some r.wallet | none => false) ||
+        r.outs.any (fun o => o.amt == 0) || r.outs.isEmpty then [] else ["unexpected-error-class"]) else
   let senderBad : Bool := match r.sender with
     | some a => (AMap.get v.own a).map (·.1) != some r.wallet
     | none => false
@@ -239,12 +254,13 @@ def judgeManual (v : View) (r : Req) (res : Res) : List String :=
   | .err cls =>
     if cls = "err:bigfee" then (if r.kind.isApi then [] else ["unexpected-bigfee"]) else
     if unresolved then [] else           -- unknown / unconfirmed previous outputs: some error, class not specified
-    if !owned then (if cls = "err:noaddr" then [] else ["expected-noaddr"]) else
+    if !owned then [] else               -- a foreign coin must be refused, class not specified
+    if v.stale && (cls = "err:param" || cls = "err:other") then [] else
     if !nodupB r.inputs then [] else     -- a repeated input must be refused, class not specified
     let totalIn := (outsOf.filterMap id).map (·.amt) |>.sum
     match manualSpec r totalIn r.inputs.length with
-    | .error c => if c = cls then [] else ["expected-" ++ c]
-    | .ok _ => ["unexpected-error"]
+    | .error c => if (if r.kind.isApi then apiCollapse c else c) = cls then [] else ["expected-" ++ c]
+    | .ok _ => if r.kind.isApi && (r.inputs.isEmpty || r.outs.isEmpty) then [] else ["unexpected-error"]
 
 /-- THE judge -/
 def judge (v : View) (r : Req) (res : Res) : List String :=
